@@ -57,11 +57,11 @@ RangeLv(lv, st, vs, rem) ==
       wr == {k \in Rng(st, n) : vs[k - st + 1] # Z}
   IN [k \in keep \cup wr |-> IF k \in wr THEN vs[k - st + 1] ELSE lv[k]]
 
-\* write_range(start, vs): the n leaves go to start..start+n-1; an empty write is a no-op
+\* write_range(start, vs): the n leaves go to start..start+n-1; an empty write changes nothing
 RangeF(d, s, st, vs) ==
   LET n == Len(vs) IN
   IF st + n > Pow2(d) THEN R({"err"}, s)
-  ELSE IF n = 0 THEN R({"ok"}, s)
+  ELSE IF n = 0 THEN R({"ok", "err"}, s)                        \* nothing to write: reported either way
   ELSE R({"ok"}, St(RangeLv(s.lv, st, vs, {}), Max(s.next, st + n), s.fl \cup Rng(st, n)))
 
 \* batch update: reset every position of rem to the default leaf, then write vs at st.
